@@ -208,6 +208,42 @@ func structToMap(data any, visiting map[uintptr]bool) map[string]any {
 	return result
 }
 
+// AddGoNameAliases makes the JSON-tagged fields of the struct data (or pointer to struct) also
+// available in m under their Go field names, unless m already has such a key: a root struct can
+// be addressed by field name or JSON tag alike, whatever other source defines the same name.
+func AddGoNameAliases(m map[string]any, data any) {
+	if data == nil {
+		return
+	}
+	rv := reflect.ValueOf(data)
+	for rv.Kind() == reflect.Ptr {
+		if rv.IsNil() {
+			return
+		}
+		rv = rv.Elem()
+	}
+	if rv.Kind() != reflect.Struct {
+		return
+	}
+	rt := rv.Type()
+	for i := range rt.NumField() {
+		f := rt.Field(i)
+		if !f.IsExported() {
+			continue
+		}
+		tagName := strings.Split(f.Tag.Get("json"), ",")[0]
+		if tagName == "" || tagName == f.Name {
+			continue
+		}
+		if _, taken := m[f.Name]; taken {
+			continue
+		}
+		if v, ok := m[tagName]; ok {
+			m[f.Name] = v
+		}
+	}
+}
+
 // PopulateStructFields adds exported struct fields to the map using JSON tags.
 // Nested structs are converted to maps to support path resolution like item.inStock.
 func PopulateStructFields(m map[string]any, data any) {
